@@ -1,13 +1,13 @@
 """Texts for MANIFEST.json (level claims, trusted base, technique) per property."""
 ENGINES = [
-    dict(name='rapidcheck', path='/verif/harness', serves_properties=[], kind_free_text='property-based testing (generators + shrinking) driven programmatically per sub-check; 16 worker processes'),
-    dict(name='libFuzzer', path='/verif/fuzz', serves_properties=[], kind_free_text='coverage-guided fuzzing with semantic oracles inside the target (ASan)'),
+    dict(name='rapidcheck', path='/verif/harness', serves_properties=['C%02d' % i for i in range(1, 21)], kind_free_text='property-based testing (generators + shrinking) driven programmatically per sub-check; 16 worker processes'),
+    dict(name='libFuzzer', path='/verif/fuzz', serves_properties=['C04', 'C05', 'C11', 'C12'], kind_free_text='coverage-guided fuzzing with semantic oracles inside the target (ASan)'),
 ]
 NOTES = 'All checks: python3 verif.py run <ID> --tier quick|thorough; honours VERIF_SEED / VERIF_TIER; rebuilds from /repo working tree (content hash). Exit 0 held, 1 VIOLATION, 2 inconclusive/build failure.'
 NOT_APPLICABLE = {}
 META = {}
 META['C18'] = dict(
-    text='Generated-input search: 2M (quick) / 20M (thorough) boundary-biased divisors and runs of consecutive divisors against a 128-bit floor-division oracle, '
+    text='Generated-input search: 2M (quick) / 50M (thorough) boundary-biased divisors and runs of consecutive divisors against a 128-bit floor-division oracle, '
          'three-way with the C and the assembly routine; both tiers additionally enumerate all 2^32-33 divisors (exhaustive for the reciprocal claim; a seeded change hitting 828 of 2^32 divisors showed that sampling 2M of them is not enough). '
          'The no-op rule is explored over divisor x register x opcode x preceding-writer combinations in the decoder and through JIT/interpreter program equality.',
     note='Trusted: unsigned __int128 division of libgcc; the harness reading of "last-writer table" = CBRANCH target in decoded bytecode.',
@@ -16,49 +16,49 @@ META['C18'] = dict(
 
 META['C11'] = dict(
     text='Generated-input search over (message, outlen, key, chunking, injected counter state, invalid parameter tuples, commitment inputs) against an '
-         'independent RFC 7693 model; 360k cases quick / 8.4M thorough plus a > 4 GiB stream. Exploration, not proof: lengths beyond ~4 GiB and counters '
-         'other than the injected near-wrap values are unexplored.',
+         'independent RFC 7693 model; 360k cases quick / 22M thorough, messages of more than 4 GiB handed over in one call (2 quick / 16 thorough) and as chunked streams (thorough), '
+         'plus a libFuzzer campaign (480k / 40M executions) with the same oracle. Exploration, not proof: counters other than the injected near-wrap values are unexplored.'',
     note='Trusted: model/ref_blake2b.cpp (checked at setup against the RFC vector and 2000 CPython hashlib digests); state injection relies on the public blake2b_state layout.',
-    technique='property-based testing (rapidcheck) against an independent reference model; metamorphic chunking relation',
+    technique='property-based testing (rapidcheck) and coverage-guided fuzzing (libFuzzer) against an independent reference model; metamorphic chunking relation',
 )
 META['C12'] = dict(
     text='All T-table entries enumerated; generated (state,key) pairs and (seed,size,buffer) cases through the four AES functions in both the table-driven and '
          'the AES-NI instantiation, compared with a FIPS-197 model whose S-box is computed rather than copied. Exploration of a 2^256 domain: the single-byte '
-         'isolating states cover every table entry in every byte route, everything else is sampled.',
+         'isolating states cover every table entry in every byte route, everything else is sampled (buffers at 0/16/32/48 bytes from a 64-byte boundary; libFuzzer campaign 80k / 10M executions with the same oracle).',
     note='Trusted: model/ref_aes.cpp (self-tested against FIPS-197 App.B and the CPU AESENC/AESDEC at setup). The AES code emitted by the JIT is covered by C04, not here.',
-    technique='property-based testing (rapidcheck) against an independent reference model + differential soft/hard + exhaustive table enumeration',
+    technique='property-based testing (rapidcheck) and coverage-guided fuzzing (libFuzzer) against an independent reference model + differential soft/hard + exhaustive table enumeration',
 )
 
 META['C04'] = dict(
     text='Differential property-based testing: generated program buffers are injected (link-time wrap of the program generator) into the shipped run() of an '
-         'interpreted and a JIT-compiled VM of the same configuration; 13.5k programs quick / 660k thorough, each 2048 iterations, full register file + 2 MiB '
+         'interpreted and a JIT-compiled VM of the same configuration; 13.5k programs quick / 330k thorough (plus a libFuzzer campaign of 8k / 600k executions with the same oracle), each 2048 iterations, full register file + 2 MiB '
          'scratchpad + MXCSR compared. Exploration of a 2^25600 space with a generator biased to the encodings the JIT special-cases.',
     note='Trusted: the interpreter as comparison side (a defect shared by both engines is invisible here; C05 compares the interpreter with the spec model). '
          'Emitted code is not sanitizer-instrumented.',
-    technique='differential property-based testing (rapidcheck + instruction-wise delta-debugging minimiser), interpreter vs x86 JIT',
+    technique='differential property-based testing (rapidcheck + instruction-wise delta-debugging minimiser) and coverage-guided fuzzing (libFuzzer), interpreter vs x86 JIT',
 )
 META['C07'] = dict(
     text='Three generated checks: branch-constant arithmetic on the decoder\'s own constants (3M quick / 200M thorough triples with forced carry patterns), structural '
          'invariant over decoded bytecode and the JIT\'s emitted jz displacements (20k / 1M programs), and instruction counting while stepping the interpreter plus JIT '
          'equality on branch-heavy programs under a per-case hang watchdog. The universal arithmetic claim is sampled, not proved.',
-    note='Trusted: harness reading of the bytecode fields; per-case 90 s watchdog (>1000x a normal case) is the only clock and a timeout must reproduce 3 times.',
+    note='Trusted: harness reading of the bytecode fields; per-case 300 s watchdog (>1000x a normal case) is the only clock and a timeout must reproduce 3 times.',
     technique='property-based testing (rapidcheck): arithmetic invariant + structural validity predicate + step-counting invariant',
 )
 
 META['C06'] = dict(
     text='Generated adversarial programs and buffer placements executed with every buffer the property names fenced: ASan/bounds instrumentation for compiled C/C++ code, '
          'PROT_NONE guard pages adjacent to scratchpad, cache, dataset and code buffers for JIT-emitted code, checksums over previously emitted code, canaries and guard pages '
-         'around API input/output. 4.4k cases quick / 360k thorough. A violation shows as a fault, a sanitizer report or a changed checksum; absence is evidence only for the explored cases.',
+         'around API input/output. 4.4k cases quick / 80k thorough. A violation shows as a fault, a sanitizer report or a changed checksum; absence is evidence only for the explored cases.',
     note='Trusted: page-granular guards for emitted code (an out-of-bounds access that stays inside the same page-multiple buffer is by definition in bounds); synthetic dataset contents.',
     technique='property-based testing (rapidcheck) with memory-safety oracles: guard pages, ASan, code checksums, canaries; driver-side delta debugging of crashing cases',
 )
 
 META['C05'] = dict(
     text='Generated instruction sequences executed one instruction at a time by the implementation\'s decoder/executor and by an independent model of specs.md ch.4-5, comparing every '
-         'architectural effect after each step (1.9M steps quick / 190M thorough, all 256 opcodes x 2 versions covered), plus VM programming (4.5), load conversions (4.3) and whole '
+         'architectural effect after each step (1.9M steps quick / ~100M thorough through rapidcheck, 240k / 6M short programs through a libFuzzer target with the same oracle; all 256 opcodes x 2 versions covered), plus VM programming (4.5), load conversions (4.3) and whole '
          '2048-iteration programs against the model through the real InterpretedVm and JIT. FP invariants are asserted on implementation values. Exploration of 2^64 words x states.',
     note='Trusted: model/ref_vm.cpp as reading of the spec (its whole-hash composition reproduces the 10 published digests); host FPU for IEEE-754 rounding; -fno-access-control used on the harness TU only.',
-    technique='property-based testing (rapidcheck) against an independent single-step reference model',
+    technique='property-based testing (rapidcheck) and coverage-guided fuzzing (libFuzzer, seed corpus) against an independent single-step reference model',
 )
 META['C02'] = dict(
     text='Generated (key,input,version) triples hashed by the library and by an independent executable reading of specs.md ch.2-7 (Blake2b, AES generators, Argon2d fill, SuperscalarHash '
@@ -70,26 +70,26 @@ META['C02'] = dict(
 
 META['C09'] = dict(
     text='Generated keys -> the eight generated programs are checked against a validity predicate (the operand rules native back-ends rely on), against an independent model of the generator '
-         'instruction for instruction, and executed in the interpreter and in the natively generated x86 code for generated register values. 16k keys (128k programs) quick / 1.6M keys thorough.',
+         'instruction for instruction, and executed in the interpreter and in the natively generated x86 code for generated register values. The native-vs-interpreter part also runs the programs with boundary values substituted for their immediates (imm8 / sign-extension corners of the code generator). 16k keys (128k programs) quick / 2M keys thorough.',
     note='Trusted: the model generator for oracle B (its under-specified parts are pinned to upstream and validated through the published digests); oracle A and C do not depend on it.',
     technique='property-based testing (rapidcheck): validity predicate + reference model + interpreter/native differential',
 )
 META['C10'] = dict(
     text='Generated reduced Argon2d instances through the very entry points cache initialisation uses, for the three fill implementations, and full 256 MiB caches with re-key sequences through the public API, '
-         'all compared byte for byte with an independent RFC 9106 model. 1.6k reduced + 16 full sequences (96 cache fills) quick; 100k + 192 thorough.',
+         'all compared byte for byte with an independent RFC 9106 model. The empty key is part of every re-key sequence and is passed both as (NULL,0) and as (non-NULL,0). 1.6k reduced + 16 full sequences (144 cache fills) quick; 200k + 256 thorough.',
     note='Trusted: model/ref_argon2.cpp (reproduces the RFC 9106 Argon2d test vector with secret, associated data, 4 lanes and finalisation).',
     technique='property-based testing (rapidcheck) against an independent reference model; n-version differential over three implementations',
 )
 META['C08'] = dict(
     text='Generated (start,count) partitions and thread assignments for both dataset initialisers on a dataset whose pages are inaccessible except for the requested, canary-filled ranges; every requested '
-         'item compared with the light-mode computation and the specification model. 3k call sets quick / 200k + two complete datasets thorough. Schedules are whatever the OS produces for the generated thread assignment.',
+         'item compared with the light-mode computation and the specification model. 3k call sets quick / 150k + two complete datasets thorough. Schedules are whatever the OS produces for the generated thread assignment.',
     note='Trusted: model item construction (ch.7.3) for the three-way comparison; thread interleavings are not controlled, only varied.',
     technique='property-based testing (rapidcheck): differential (compiled/interpreted/light/model) + page-protection and canary invariants',
 )
 
 META['C01'] = dict(
     text='n-version differential over generated (key, input, version): 23 configurations per version (12 VM classes, two complete datasets from both initialisers over generated multi-thread partitions, six cache '
-         'variants, both hashing APIs) must all reproduce the digest of the light software-AES interpreter. 2 keys / 720 hashes quick, 16 keys thorough; each key costs ~50 s (two 2 GiB datasets).',
+         'variants, both hashing APIs) must all reproduce the digest of the light software-AES interpreter. Per key additionally a sweep of 256 further inputs x 2 versions through six classes on 8 threads (program-dependent deviations of ~1 hash in 500 need hundreds of tuples). 2 keys / ~6.8k hashes quick, 32 keys thorough; each key costs ~90 s (two 2 GiB datasets).',
     note='Trusted: nothing but digest equality; a defect shared by every configuration is invisible (C02). LARGE_PAGES not in the quantifier.',
     technique='differential property-based testing (rapidcheck), n-version equality across configurations',
 )
@@ -103,28 +103,28 @@ META['C03'] = dict(
 )
 META['C16'] = dict(
     text='The C03 history generator restricted to secure JIT VMs, with every mmap/mprotect/munmap of the library interposed: a W+X request, a W+X region after any command, or an rwx line in /proc/self/maps over a '
-         'library-owned range is a violation. 50 histories quick (~600 protection changes) / 1632 thorough.',
+         'library-owned range is a violation. 50 histories quick (~600 protection changes) / 1312 thorough.',
     note='Trusted: link-time interposition sees all protection requests of the statically linked library; /proc/self/maps as cross-check at command granularity only.',
     technique='stateful property testing (rapidcheck command sequences) with an invariant over the interposed page-protection history',
 )
 
 META['C13'] = dict(
     text='Generated entry MXCSR words (any of the 2^16 control/status combinations) x VM configuration x inputs, for the single call (digest independence + bit-exact restore, two hashes back to back) and for the '
-         'pipelined API (independent entry state before each call). 640 cases quick / 40k thorough; the non-trivial rule requires the hash to end in a non-default rounding mode so that a missing reset cannot hide behind the restore.',
+         'pipelined API (independent entry state before each call). 15 VM configurations incl. five fast-mode classes. 640 cases quick / 30k thorough; the non-trivial rule requires the hash to end in a non-default rounding mode so that a missing reset cannot hide behind the restore.',
     note='Trusted: stmxcsr/ldmxcsr around the call; x87 control word is not part of the property on x86-64 (SSE arithmetic only).',
     technique='property-based testing (rapidcheck): metamorphic relation (digest invariant under entry FP state) + state-restoration invariant',
 )
 
 META['C15'] = dict(
     text='Exhaustive fault enumeration: every creating call x every supported flag combination x huge-page behaviour x every index k of a failing request (333 plans incl. the fault-free ones, each in its own child process), '
-         'with heap / mapping accounting by link-time interposition; plus generated multi-fault and create/use/release cycle sequences (160 quick / 20k thorough). The plan space is finite and covered completely on every run.',
+         'with heap / mapping accounting by link-time interposition; plus generated multi-fault and create/use/release cycle sequences (160 quick / 1200 thorough); between creation and release every object is used (re-initialisation with keys of growing and shrinking length, rebinding, both hashing APIs, dataset ranges) with all requests accounted. The plan space is finite and covered completely on every run.',
     note='Trusted: interposition sees posix_memalign, operator new and mmap/munmap of the statically linked library; libstdc++\'s exception-object malloc is out of reach; huge pages are simulated with the munmap rule measured on this kernel.',
     technique='exhaustive fault-injection enumeration + property-based testing (rapidcheck) of fault/cycle sequences with leak-accounting invariant',
 )
 
 META['C14'] = dict(
-    text='Generated multi-thread workloads (threads x operation lists x yields) over one shared cache and one shared sparse dataset, executed in a ThreadSanitizer build: results must equal the sequential results and '
-         'TSan\'s happens-before analysis must stay silent, which flags conflicting unsynchronised accesses of sibling threads independently of the timing that happened to occur. 40 workloads quick / 1000 thorough.',
+    text='Generated multi-thread workloads (threads x operation lists x yields) over one shared cache (in half of the workloads freshly keyed with no VM attached yet), one shared complete dataset read by fast-mode VMs and one shared sparse dataset being initialised, executed in a ThreadSanitizer build: results must equal the sequential results and '
+         'TSan\'s happens-before analysis must stay silent, which flags conflicting unsynchronised accesses of sibling threads independently of the timing that happened to occur. 40 workloads quick / 288 thorough.',
     note='Trusted: TSan (clang 14) instrumentation of the C/C++ sources; JIT-emitted stores are invisible to it; schedules are sampled, not enumerated - a race needing a narrow timing window *and* falling outside TSan\'s history can be missed.',
     technique='property-based testing (rapidcheck) of generated thread workloads under a happens-before race detector + sequential-equivalence oracle',
 )
@@ -139,7 +139,7 @@ META['C17'] = dict(
 META['C19'] = dict(
     text='Translation-style differential by generated programs: the ARM64 emitter (portable C++) runs on the host and emits real A64 code next to the cross-assembled hand-written runtime; an instruction-subset emulator '
          'executes it with all memory accesses region-checked; register file, scratchpad and rounding mode must equal the host interpreter on the same injected program; the emitted dataset-init code must reproduce '
-         'interpreter items. 320 programs + 64 ranges quick / 100k + 20k thorough. Found and fixed: ISUB_R with imm32 = 0x80000000.',
+         'interpreter items. 320 programs + 64 ranges (half of them over SuperscalarHash programs with boundary immediates) quick / 12k + 2.4k thorough. Found and fixed: ISUB_R with imm32 = 0x80000000.',
     note='Trusted: the emulator (emu/a64.hpp, ~60 instruction forms; decode of every executed word cross-checked against llvm-objdump; semantics validated only indirectly by full agreement with the interpreter on the unchanged tree). '
          'The aarch64-only eMask copy in CompiledVm::execute is done by the harness (blind spot).',
     technique='differential property-based testing (rapidcheck) of emitted AArch64 code under an instruction-subset emulator vs the interpreter',
@@ -147,7 +147,7 @@ META['C19'] = dict(
 
 META['C20'] = dict(
     text='Same construction as C19 for the scalar RISC-V back-end: host-run emitter + cross-assembled runtime + RV64GC instruction-subset emulator (RV64IMD, Zicsr frm, C) with region-checked memory, compared with the host '
-         'interpreter on generated programs and with interpreter dataset items. 320 programs + 64 ranges quick / 100k + 20k thorough. Found and fixed: ISUB_R with imm32 = 0x80000000.',
+         'interpreter on generated programs and with interpreter dataset items. 320 programs + 64 ranges (half of them over SuperscalarHash programs with boundary immediates) quick / 12k + 2.4k thorough. Found and fixed: ISUB_R with imm32 = 0x80000000.',
     note='Trusted: the emulator (emu/rv64.hpp; decode of every executed word cross-checked against llvm-objdump; semantics validated indirectly by full agreement with the interpreter on the unchanged tree). Zba/Zbb #ifdef paths and the vector back-end are not compiled.',
     technique='differential property-based testing (rapidcheck) of emitted RV64GC code under an instruction-subset emulator vs the interpreter',
 )
